@@ -10,7 +10,8 @@
    tcp_wf c s          : invariant of the session fields (holds initially and is preserved)
    [true] selects the repaired line "partial_read += n"; tcp_feed_orig is the line as found. *)
 From LibcoapV Require Import Base.Tactics Base.Bytes Wire.OptCodec Wire.Pdu Wire.PduProofs
-  Stream.TcpReader Stream.TcpReaderProofs.
+  Stream.TcpReader Stream.TcpReaderProofs Stream.WsReader Stream.WsHandshake Stream.WsReaderProofs
+  Stream.WsWitness.
 Local Open Scope Z_scope.
 
 (* one read of a ++ b  =  a read of a followed by a read of b: same state, same events *)
@@ -111,3 +112,159 @@ Proof. intros c. exact I. Qed.
 Example C05_tcp_oversize_witness :
   tcp_feed tcp_wit_cfg TIdle [240; 255; 255; 255; 255; 1; 7; 7] = (TClosed, [TClose]).
 Proof. vm_compute. reflexivity. Qed.
+
+(* ================================================================== WebSocket ==================
+
+   ws_arrivals c s l   : the stream arrives in the pieces l on a WS session; after each arrival the
+                         level-triggered event loop calls coap_read_session, which calls coap_ws_read
+                         (handshake lines read 14 bytes at a time into http_hdr[160], 14-byte frame
+                         header read-ahead, payload reads) while frames are returned
+   ws_run c m bs       : specification - a byte-at-a-time automaton without buffers or read sizes
+   ws_mode_of s        : the automaton mode that corresponds to a reader state between two arrivals
+   ws_qinv c s         : invariant of the ws fields between two arrivals (holds for ws_init)
+   c                   : server/client, COAP_RXBUFFER_SIZE, the per-line handshake checks (any
+                         function; Stream/WsHandshake.v holds the server-side ones), and the four
+                         repairs (wsc_fix c = ws_fixed: the code as it is now in /repo)
+   hypothesis "no WZero": no frame with an empty payload occurs (not a CoAP message; coap_ws_read
+                         treats it differently depending on what was read along with its header) *)
+
+(* what the reader delivers for any way the stream arrives is what the automaton delivers for the
+   concatenation: a function of the bytes alone *)
+Theorem C05_ws_events_function_of_bytes : forall c,
+  wsc_fix c = ws_fixed -> ws_drain_buf <= wsc_rxbuf c ->
+  forall arr s s' evs,
+  ws_qinv c s -> Forall wfb arr ->
+  ~ In WZero (snd (ws_run c (ws_mode_of s) (concat arr))) ->
+  ws_arrivals c s arr = (s', evs) ->
+  ws_run c (ws_mode_of s) (concat arr) = (ws_mode_of s', evs) /\ ws_qinv c s'.
+Proof. exact ws_arrivals_spec. Qed.
+Print Assumptions C05_ws_events_function_of_bytes.
+
+(* any two segmentations of one stream - cuts inside handshake lines, the 2..14 frame header
+   bytes (7/16/64-bit length, masking key), the payload - give the same events and leave the
+   reader in the same mode *)
+Theorem C05_ws_chunking : forall c s arr1 arr2,
+  wsc_fix c = ws_fixed -> ws_drain_buf <= wsc_rxbuf c ->
+  ws_qinv c s -> Forall wfb arr1 -> Forall wfb arr2 -> concat arr1 = concat arr2 ->
+  ~ In WZero (snd (ws_run c (ws_mode_of s) (concat arr1))) ->
+  snd (ws_arrivals c s arr1) = snd (ws_arrivals c s arr2) /\
+  ws_mode_of (fst (ws_arrivals c s arr1)) = ws_mode_of (fst (ws_arrivals c s arr2)).
+Proof. exact ws_arrivals_independent. Qed.
+Print Assumptions C05_ws_chunking.
+
+(* an accepted handshake followed by masked frames (all three length forms) of 1..rxbuf payload
+   bytes, arriving in any pieces, yields "connected" and exactly the payloads, in order *)
+Theorem C05_ws_frames : forall c hs l arr,
+  wsc_fix c = ws_fixed -> ws_drain_buf <= wsc_rxbuf c -> wsc_server c = true ->
+  ws_run c (MHs ws_flags0 []) hs = (MHdr [], [WConnected]) ->
+  Forall (ws_frame_ok c) l -> Forall wfb arr -> concat arr = hs ++ ws_frames_of l ->
+  snd (ws_arrivals c ws_init arr) = WConnected :: map (fun x => WMsg (snd x)) l /\
+  ws_mode_of (fst (ws_arrivals c ws_init arr)) = MHdr [].
+Proof. exact ws_stream_delivered. Qed.
+Print Assumptions C05_ws_frames.
+
+(* ... and a payload that is the WebSocket serialisation of a well-formed message (more than 2
+   bytes: coap_read_session ignores shorter frames) is accepted by the PDU parser and decodes to it *)
+Theorem C05_ws_frames_delivered : forall ms,
+  Forall (fun m => msg_wf m /\ 2 < len (serialize WS m)) ms ->
+  ws_observe (map (fun m => WMsg (serialize WS m)) ms) = map (fun m => WDeliver (norm_fields WS m)) ms.
+Proof. exact ws_observe_messages. Qed.
+Print Assumptions C05_ws_frames_delivered.
+
+(* the request libcoap's own client sends is such a handshake for the server-side checks *)
+Theorem C05_ws_request_accepted :
+  ws_run (ws_server_cfg ws_fixed) (MHs ws_flags0 []) ws_request = (MHdr [], [WConnected]).
+Proof. exact ws_request_accepted. Qed.
+Print Assumptions C05_ws_request_accepted.
+
+(* a handshake line that fills the line buffer (159 bytes without end of line) closes the
+   session, however it arrives *)
+Theorem C05_ws_longline : forall c arr x more s' evs,
+  wsc_fix c = ws_fixed -> ws_drain_buf <= wsc_rxbuf c -> Forall wfb arr ->
+  concat arr = x ++ more -> ws_find_nl x = None -> len x = ws_http_buf - 1 ->
+  ws_arrivals c ws_init arr = (s', evs) ->
+  evs = [WFail] /\ w_closed s' = true.
+Proof. exact ws_longline_closes. Qed.
+Print Assumptions C05_ws_longline.
+
+(* no write outside http_hdr[] / the frame buffers, never a reader that is stuck on a readable
+   socket, no fuel exhaustion *)
+Theorem C05_ws_no_oob : forall c s arr,
+  wsc_fix c = ws_fixed -> ws_drain_buf <= wsc_rxbuf c ->
+  ws_qinv c s -> Forall wfb arr ->
+  ~ In WZero (snd (ws_run c (ws_mode_of s) (concat arr))) ->
+  Forall ws_ev_clean (snd (ws_arrivals c s arr)).
+Proof. exact ws_arrivals_clean. Qed.
+Print Assumptions C05_ws_no_oob.
+
+(* the code as found (records of defects #4, #17 and the two found on the way; all fixed in /repo,
+   the witnesses are replayed from corpus/C05 on every run) *)
+Theorem C05_ws_stack_buffer_refuted_before_fix :
+  exists arr1 arr2, concat arr1 = concat arr2 /\
+    snd (ws_arrivals (ws_server_cfg ws_orig) ws_init arr1) <>
+    snd (ws_arrivals (ws_server_cfg ws_orig) ws_init arr2) /\
+    ws_has_undef (snd (ws_arrivals (ws_server_cfg ws_orig) ws_init arr2)) = true.
+Proof. exact ws_orig_stack_buffer_refuted. Qed.
+Print Assumptions C05_ws_stack_buffer_refuted_before_fix.
+
+Theorem C05_ws_longline_refuted_before_fix :
+  let evs := snd (ws_arrivals (ws_server_cfg ws_orig) ws_init [ws_w_longline]) in
+  ws_has_ev ws_is_oob evs = true /\ ws_has_ev ws_is_stuck evs = true /\ ws_has_ev ws_is_close evs = false.
+Proof. exact ws_orig_longline_refuted. Qed.
+Print Assumptions C05_ws_longline_refuted_before_fix.
+
+Theorem C05_ws_oversize_buffered_refuted_before_fix :
+  ws_has_ev ws_is_oob (snd (ws_arrivals (ws_server_cfg ws_orig) ws_init [ws_w_oversize])) = true.
+Proof. exact ws_orig_oversize_refuted. Qed.
+Print Assumptions C05_ws_oversize_buffered_refuted_before_fix.
+
+Theorem C05_ws_readahead_refuted_before_fix :
+  exists arr1 arr2, concat arr1 = concat arr2 /\
+    snd (ws_arrivals (ws_server_cfg ws_orig) ws_init arr1) <>
+    snd (ws_arrivals (ws_server_cfg ws_orig) ws_init arr2).
+Proof. exact ws_orig_strand_refuted. Qed.
+Print Assumptions C05_ws_readahead_refuted_before_fix.
+
+(* client session (frames from the server are not masked): a whole message was lost until more
+   bytes arrived *)
+Theorem C05_ws_client_readahead_refuted_before_fix :
+  exists arr1 arr2, concat arr1 = concat arr2 /\
+    snd (ws_arrivals (ws_client_cfg ws_orig) ws_init arr1) = [WConnected; WMsg ws_w_content] /\
+    snd (ws_arrivals (ws_client_cfg ws_orig) ws_init arr2) = [WConnected; WMsg ws_w_content; WMsg ws_w_ping].
+Proof. exact ws_orig_client_strand_refuted. Qed.
+Print Assumptions C05_ws_client_readahead_refuted_before_fix.
+
+(* the answer libcoap's own server sends is accepted by the client-side checks (for the key the
+   driver makes the client use), so C05_ws_events_function_of_bytes / C05_ws_chunking apply to
+   client sessions with c = ws_client_cfg ws_fixed as well *)
+Theorem C05_ws_response_accepted :
+  ws_run (ws_client_cfg ws_fixed) (MHs ws_flags0 []) ws_response = (MHdr [], [WConnected]).
+Proof. exact ws_response_accepted. Qed.
+Print Assumptions C05_ws_response_accepted.
+
+(* non-vacuity: the initial state meets the invariant, the concrete configuration meets the
+   hypotheses, and the witnesses above behave on the repaired reader *)
+Example C05_ws_init_invariant : forall c, ws_qinv c ws_init.
+Proof. exact ws_init_qinv. Qed.
+
+Example C05_ws_cfg_hypotheses :
+  wsc_fix (ws_server_cfg ws_fixed) = ws_fixed /\ ws_drain_buf <= wsc_rxbuf (ws_server_cfg ws_fixed) /\
+  wsc_server (ws_server_cfg ws_fixed) = true.
+Proof. exact ws_server_cfg_fixed_ok. Qed.
+
+Example C05_ws_nonvacuous_witnesses :
+  snd (ws_arrivals (ws_server_cfg ws_fixed) ws_init (ws_w_cut (len ws_request + 8) ws_w_stream)) =
+    [WConnected; WMsg ws_w_get; WMsg ws_w_ping] /\
+  snd (ws_arrivals (ws_server_cfg ws_fixed) ws_init [ws_w_stream]) =
+    [WConnected; WMsg ws_w_get; WMsg ws_w_ping] /\
+  snd (ws_arrivals (ws_server_cfg ws_fixed) ws_init [ws_w_longline]) = [WFail] /\
+  snd (ws_arrivals (ws_server_cfg ws_fixed) ws_init [ws_w_oversize]) = [WConnected; WClose 1009] /\
+  snd (ws_arrivals (ws_server_cfg ws_fixed) ws_init [ws_w_strand]) =
+    snd (ws_arrivals (ws_server_cfg ws_fixed) ws_init (ws_w_cut (len ws_request + 9) ws_w_strand)).
+Proof. exact ws_fixed_witnesses. Qed.
+
+Example C05_ws_client_nonvacuous :
+  snd (ws_arrivals (ws_client_cfg ws_fixed) ws_init [ws_w_cstream]) =
+    [WConnected; WMsg ws_w_content; WMsg ws_w_ping] /\
+  wsc_fix (ws_client_cfg ws_fixed) = ws_fixed /\ ws_drain_buf <= wsc_rxbuf (ws_client_cfg ws_fixed).
+Proof. exact ws_fixed_client_witness. Qed.
